@@ -1298,6 +1298,17 @@ class Config:  # pylint: disable=too-many-instance-attributes
                     value = sensitive_mask * len(str(field_value))
                 else:
                     value = sensitive_mask
+            elif (
+                sensitive_mask is not None
+                and isinstance(field_value, ContainerValueMixin)
+                and isinstance(field_value, list)
+                and field_value
+                and all(isinstance(item, Config) for item in field_value)
+            ):
+                # configurations held in a list have sensitive fields of their own
+                value = [
+                    item.to_tree(sensitive_mask=sensitive_mask) for item in field_value
+                ]
             elif isinstance(field, Field):
                 try:
                     value = field.to_basic(self, field_value)
